@@ -116,7 +116,7 @@ fn probes(m: &Model) -> Vec<Vec<Bytes>> {
     p
 }
 
-fn make_world(spec: &str) -> Option<Box<dyn World>> {
+pub fn make_world(spec: &str) -> Option<Box<dyn World>> {
     let acts = match spec {
         "c01-full" => full_acts(),
         "c01-core" => core_acts(),
